@@ -667,6 +667,15 @@ func (d *driver) realCert() []byte {
 	if d.r.Intn(3) == 0 {
 		tmpl.IPAddresses = []net.IP{net.IPv4(10, 0, byte(d.r.Intn(256)), byte(d.r.Intn(256)))}
 	}
+	if d.r.Intn(3) == 0 {
+		// names that JSON encoders render differently depending on their settings (HTML escaping of & < >, quotes,
+		// backslash, non-ASCII, U+2028): every rendering of a names line must be THE rendering (seed C04-7: the
+		// right-edge names tile rebuilt at start-up by an encoder with SetEscapeHTML(false))
+		tmpl.Subject.Organization = []string{"R&D <\"Verif\"> \\ caf\u00e9\u2028x"}
+		tmpl.Subject.CommonName = fmt.Sprintf("a&b<%d>.example", d.nEntry)
+		tmpl.DNSNames = append(tmpl.DNSNames, fmt.Sprintf("x&y<%d>.example", d.nEntry))
+		d.stats["cert-with-json-sensitive-names"]++
+	}
 	if d.r.Intn(5) == 0 {
 		// a tolerated defect: the CT x509 fork returns the certificate TOGETHER WITH a non-fatal error
 		// (empty AuthorityInfoAccess); ctfe.ValidateChain accepts such chains, so they get logged
